@@ -14,12 +14,14 @@ use reactive_graph::{
     graph::untrack,
     owner::{LocalStorage, Owner, SyncStorage},
     signal::{
-        arc_signal, signal, ArcReadSignal, ArcRwSignal, ArcTrigger, ArcWriteSignal, ReadSignal,
-        RwSignal, WriteSignal,
+        arc_signal, signal, ArcMappedSignal, ArcReadSignal, ArcRwSignal, ArcTrigger, ArcWriteSignal,
+        MappedSignal, ReadSignal, RwSignal, WriteSignal,
     },
     traits::{Get, GetUntracked, Notify, Set, Track},
     wrappers::read::{ArcSignal, Signal},
 };
+#[allow(deprecated)]
+use reactive_graph::wrappers::read::MaybeSignal;
 use std::{
     cell::RefCell,
     collections::VecDeque,
@@ -75,7 +77,83 @@ enum Handle {
     Closure(Arc<dyn Fn() -> i64 + Send + Sync>),
     Derive(Signal<i64>),
     ArcDerive(ArcSignal<i64>),
+    // type-erased wrappers around another node (None: a stored constant); reads go through
+    // library code only, so the harness logs the inner read itself
+    Wrap(Signal<i64>, Option<usize>),         // Signal::from(..) / Signal::stored
+    ArcWrap(ArcSignal<i64>, Option<usize>),   // ArcSignal::from(..) / ArcSignal::stored
+    ArcMapped(ArcMappedSignal<i64>, usize),   // ArcMappedSignal::new(ArcRwSignal, id, id)
+    Mapped(MappedSignal<i64>, usize),         // MappedSignal::new(RwSignal, id, id)
+    #[allow(deprecated)]
+    Maybe(MaybeSignal<i64>, Option<usize>),   // MaybeSignal::from(..) / Static
     Effect, // not readable
+}
+
+fn wrapped_of(h: &Handle) -> Option<usize> {
+    match h {
+        Handle::Wrap(_, k) | Handle::ArcWrap(_, k) | Handle::Maybe(_, k) => *k,
+        Handle::ArcMapped(_, k) | Handle::Mapped(_, k) => Some(*k),
+        _ => None,
+    }
+}
+
+fn to_signal(h: &Handle) -> Signal<i64> {
+    match h {
+        Handle::ArcRw(s) => Signal::from(s.clone()),
+        Handle::Pair(r, _) => Signal::from(*r),
+        Handle::Rw(s) => Signal::from(*s),
+        Handle::ArcPair(r, _) => Signal::from(r.clone()),
+        Handle::ArcMemo(m) => Signal::from(m.clone()),
+        Handle::Memo(m) => Signal::from(*m),
+        Handle::Closure(f) => {
+            let f = f.clone();
+            Signal::derive(move || f())
+        }
+        Handle::Derive(s) | Handle::Wrap(s, _) => *s,
+        Handle::ArcDerive(a) | Handle::ArcWrap(a, _) => Signal::from(a.clone()),
+        _ => panic!("case wraps a node that has no Signal conversion"),
+    }
+}
+
+fn to_arc_signal(h: &Handle) -> ArcSignal<i64> {
+    match h {
+        Handle::ArcRw(s) => ArcSignal::from(s.clone()),
+        Handle::ArcPair(r, _) => ArcSignal::from(r.clone()),
+        Handle::ArcMemo(m) => ArcSignal::from(m.clone()),
+        Handle::Closure(f) => {
+            let f = f.clone();
+            ArcSignal::derive(move || f())
+        }
+        Handle::ArcDerive(a) | Handle::ArcWrap(a, _) => a.clone(),
+        other => ArcSignal::from(to_signal(other)),
+    }
+}
+
+#[allow(deprecated)]
+fn to_maybe(h: &Handle) -> MaybeSignal<i64> {
+    match h {
+        Handle::ArcRw(s) => MaybeSignal::from(s.clone()),
+        Handle::Pair(r, _) => MaybeSignal::from(*r),
+        Handle::Rw(s) => MaybeSignal::from(*s),
+        Handle::ArcPair(r, _) => MaybeSignal::from(r.clone()),
+        Handle::ArcMemo(m) => MaybeSignal::from(m.clone()),
+        Handle::Memo(m) => MaybeSignal::from(*m),
+        other => MaybeSignal::from(to_signal(other)),
+    }
+}
+
+fn id_ref(x: &i64) -> &i64 {
+    x
+}
+fn id_mut(x: &mut i64) -> &mut i64 {
+    x
+}
+
+/// the read events of the nodes a wrapper delegates to, innermost first
+fn emit_chain(hs: &[Handle], k: usize, v: i64, t: bool) {
+    if let Some(k2) = wrapped_of(&hs[k]) {
+        emit_chain(hs, k2, v, t);
+    }
+    ev(2, vec![reader(), k as i64, v, t as i64]);
 }
 
 // ------------------------------------------------------------------ per-thread trace context
@@ -187,9 +265,39 @@ fn read_node(hs: &[Handle], j: usize, tracked_read: bool) -> i64 {
                 s.get_untracked()
             }
         }
+        Handle::Wrap(s, _) => {
+            if tracked_read {
+                s.get()
+            } else {
+                let _g = UntrGuard::enter();
+                s.get_untracked()
+            }
+        }
+        Handle::ArcWrap(s, _) => {
+            if tracked_read {
+                s.get()
+            } else {
+                let _g = UntrGuard::enter();
+                s.get_untracked()
+            }
+        }
+        Handle::ArcMapped(s, _) => if tracked_read { s.get() } else { s.get_untracked() },
+        Handle::Mapped(s, _) => if tracked_read { s.get() } else { s.get_untracked() },
+        #[allow(deprecated)]
+        Handle::Maybe(s, _) => {
+            if tracked_read {
+                s.get()
+            } else {
+                let _g = UntrGuard::enter();
+                s.get_untracked()
+            }
+        }
         Handle::Effect => panic!("case reads an effect node"),
     };
     let t = tracked_read && tracked_ctx();
+    if let Some(k) = wrapped_of(&hs[j]) {
+        emit_chain(hs, k, v, t);
+    }
     ev(2, vec![reader(), j as i64, v, t as i64]);
     v
 }
@@ -418,6 +526,32 @@ fn run_case(c: &Sexp, mask: u8) -> Sexp {
                     (0, _) => Handle::ArcMemo(ArcMemo::new_with_compare(f, |_, _| true)),
                     (_, 0) => Handle::Memo(Memo::new(f)),
                     (_, _) => Handle::Memo(Memo::new_with_compare(f, |_, _| true)),
+                }
+            }
+            2 if nd.at(1).num() >= 3 => {
+                // wrappers: the body is (1 j) (wrap node j) or (0 z) (a stored constant)
+                let e = parse_expr(nd.at(2));
+                let inner = match &e {
+                    Expr::Rd(j) => Some(*j),
+                    _ => None,
+                };
+                let z = match &e {
+                    Expr::Const(z) => *z,
+                    _ => 0,
+                };
+                #[allow(deprecated)]
+                match (nd.at(1).num(), inner) {
+                    (3, Some(j)) => Handle::Wrap(to_signal(&hs[j]), inner),
+                    (3, None) => Handle::Wrap(Signal::stored(z), None),
+                    (4, Some(j)) => Handle::ArcWrap(to_arc_signal(&hs[j]), inner),
+                    (4, None) => Handle::ArcWrap(ArcSignal::stored(z), None),
+                    (5, Some(j)) => match &hs[j] {
+                        Handle::ArcRw(s) => Handle::ArcMapped(ArcMappedSignal::new(s.clone(), id_ref, id_mut), j),
+                        Handle::Rw(s) => Handle::Mapped(MappedSignal::new(*s, id_ref, id_mut), j),
+                        _ => panic!("case maps a node that is not an (Arc)RwSignal"),
+                    },
+                    (_, Some(j)) => Handle::Maybe(to_maybe(&hs[j]), inner),
+                    (_, None) => Handle::Maybe(MaybeSignal::Static(z), None),
                 }
             }
             2 => {
